@@ -237,11 +237,35 @@ def run_harnesses(ctx, prefix, tier_filter=True, only=None):
     return results
 
 
+def playback(ctx, h):
+    """re-run a failing harness with concrete playback so that the counterexample is available as concrete input bytes"""
+    try:
+        root, crate = prepare_crate()
+        tdir = os.path.join(root, 'kani-target-playback')
+        args = ['cargo', 'kani', '--harness', h['name'], '--exact', '--target-dir', tdir, '-Z', 'concrete-playback', '--concrete-playback=print'] + (['-Z', 'stubbing'] if h.get('stubbing') else [])
+        env = dict(os.environ, CARGO_NET_OFFLINE='true')
+        env.pop('RUSTUP_TOOLCHAIN', None)
+        with load.cache_lock('kani-playback'):
+            p = subprocess.run(['bash', '-c', 'ulimit -v %d; exec timeout -k 10 %d %s' % (24 * 1024 * 1024, h.get('t', 900), ' '.join(args))],
+                               cwd=crate, env=env, stdout=subprocess.PIPE, stderr=subprocess.STDOUT, text=True)
+        m = re.search(r'Concrete playback unit test for `[^`]+`:\n```\n(.*?)\n```', p.stdout, re.S)
+        return m.group(1) if m else None
+    except Exception as e:
+        return 'playback failed: %r' % (e,)
+
+
 def report_failures(ctx, keyprefix):
-    """a FAILED harness is a concrete counterexample inside the bound: report it with the failing checks"""
+    """a FAILED harness is a concrete counterexample inside the bound (CBMC's SAT model); it is reported with the failing checks and
+    the concrete-playback unit test Kani generates from it (inputs as bytes; runnable with `cargo kani playback`)"""
+    done = 0
     for k in ctx.chk.kani:
         if k['status'] == 'FAILED' and not k.get('handled'):
             k['handled'] = True
+            pb = None
+            if done < 2:
+                h = [x for l in REG.values() for x in l if x['name'] == k['harness']]
+                pb = playback(ctx, h[0]) if h else None
+                done += 1
             ctx.violation('%s:%s' % (keyprefix, k['harness']), 'Kani found a counterexample in %s: %s' % (k['harness'], '; '.join(k.get('failed_checks', [])[:3])),
-                          {'harness': k['harness'], 'failed_checks': k.get('failed_checks'),
+                          {'harness': k['harness'], 'failed_checks': k.get('failed_checks'), 'concrete_playback_test': pb,
                            'how': 'cd /verif/kani (Cargo.toml from Cargo.toml.in with @REPO@ = /repo); cargo kani --harness %s -Z stubbing -Z concrete-playback --concrete-playback=print' % k['harness']})
